@@ -521,6 +521,71 @@ def delimiters_quoted_in_mid_line(W, rec, rng):
                         return
 
 
+def typed_fields_and_delimiters_at_read_boundaries(W, rec, rng):
+    """(a) A text field that carries its own Content-Type without a charset (a JSON field, text/plain from a script):
+    form data is UTF-8 unless a part says otherwise, the value comes back as sent - through the encoder events, through
+    encode_multipart and through EnvironBuilder.  (b) A body whose last part is empty, sized so that one of the parser's
+    64 KiB reads ends at each of the last bytes of the body (inside the closing delimiter): nothing is lost."""
+    M, FP, T, Request, DS = W
+    for ctype in ("text/plain", "application/json", "text/x-note; format=flowed", "text/plain; charset=utf-8"):
+        for value in ("na\u00efve caf\u00e9", "\u65e5\u672c\u8a9e \U0001f40d", "plain"):
+            for route in ("events", "encode_multipart", "builder"):
+                case = {"path": "typed-field", "content_type": ctype, "value": value, "route": route}
+                rec.case()
+                rec.nontrivial(("typed-field", ctype, value, route))
+                rec.observe("text_fields_with_their_own_content_type")
+                with rec.guard(case, "C02/typed-field"):
+                    if route == "events":
+                        enc = M.MultipartEncoder(b"bnd")
+                        data = enc.send_event(M.Preamble(data=b"")) + enc.send_event(M.Field(name="note", headers=DS.Headers([("Content-Type", ctype)])))
+                        data += enc.send_event(M.Data(data=value.encode(), more_data=False)) + enc.send_event(M.Field(name="after", headers=DS.Headers())) + enc.send_event(M.Data(data=b"z", more_data=False))
+                        data += enc.send_event(M.Epilogue(data=b""))
+                        form, files = FP.MultiPartParser().parse(io.BytesIO(data), b"bnd", len(data))
+                    elif route == "encode_multipart":
+                        md = DS.MultiDict()
+                        md.add("note", DS.FileStorage(io.BytesIO(value.encode()), name="note", content_type=ctype))
+                        md.add("after", "z")
+                        b2, data = T.encode_multipart(md)
+                        form, files = FP.MultiPartParser().parse(io.BytesIO(data), b2.encode(), len(data))
+                    else:
+                        b = T.EnvironBuilder(method="POST", data={"note": (io.BytesIO(value.encode()), None, ctype), "after": "z"})
+                        try:
+                            r = b.get_request(Request)
+                            form, files = r.form, r.files
+                        finally:
+                            b.close()
+                    if form.get("note") != value or form.get("after") != "z" or len(files):
+                        rec.violation("C02/typed-field-differs", f"{route}: a field with Content-Type {ctype!r} and value {value!r} came back as {form.get('note')!r} (fields {dict(form)!r}, files {list(files)!r})", case, monitor="roundtrip")
+                        return
+    # (b)
+    for last_kind in ("field", "file"):
+        for back in range(0, 9):
+            md = DS.MultiDict([("first", "1")])
+            pad = 70000
+            for _ in range(2):
+                md2 = DS.MultiDict(md)
+                md2.add("pad", DS.FileStorage(io.BytesIO(b"p" * pad), filename="pad.bin", name="pad", content_type="application/octet-stream"))
+                if last_kind == "field":
+                    md2.add("last", "")
+                else:
+                    md2.add("last", DS.FileStorage(io.BytesIO(b""), filename="empty.bin", name="last", content_type="application/octet-stream"))
+                b2, data = T.encode_multipart(md2, boundary="delimiterAtTheReadBoundary")
+                pad += (-(len(data) - back)) % 65536  # second pass: a 64 KiB read ends `back` bytes before the end of the body
+            case = {"path": "closing-delimiter-at-a-read-boundary", "last": last_kind, "bytes_before_the_end": back, "body_len": len(data)}
+            rec.case()
+            rec.nontrivial(("delimiter-at-read-boundary", last_kind, back))
+            rec.observe("bodies_whose_closing_delimiter_straddles_a_read")
+            if (len(data) - back) % 65536:
+                rec.note(f"padding did not align: {len(data)} {back}")
+                continue
+            with rec.guard(case, "C02/read-boundary"):
+                form, files = FP.MultiPartParser().parse(io.BytesIO(data), b2.encode(), len(data))
+                ok = form.get("first") == "1" and "pad" in files and len(files["pad"].stream.read()) == pad and (form.get("last") == "" if last_kind == "field" else ("last" in files and files["last"].stream.read() == b""))
+                if not ok:
+                    rec.violation("C02/encode_multipart:parts-differ", f"a body of {len(data)} bytes whose last part is an empty {last_kind}, a 64 KiB read ending {back} bytes before its end: fields {dict(form)!r}, files {list(files)!r}", case, monitor="roundtrip")
+                    return
+
+
 def uploads_that_are_encoded_forms(W, rec, rng):
     """History of the process: an upload whose content was itself produced by the encoder a moment ago (a recorded request
     body attached to a bug report, a form forwarded inside a form), every encoding left to choose its own boundary.  The
@@ -786,6 +851,8 @@ def run(shard, rec, rng):
         near_copy_beyond_a_read(W, rec, rng)
         uploads_that_are_encoded_forms(W, rec, rng)
         delimiters_quoted_in_mid_line(W, rec, rng)
+    if shard["index"] % 4 == 1:
+        typed_fields_and_delimiters_at_read_boundaries(W, rec, rng)
     # ---- random part lists
     for i in range(cfg["random_lists"]):
         boundary = rand_boundary(rng)
